@@ -1,50 +1,88 @@
 -------------------------------- MODULE Race --------------------------------
-(* One job, the three parent threads that may give it its outcome when the pool runs with   *)
-(* helper threads -- result handler (the worker's result), time-limit scanner                *)
-(* (TimeLimitExceeded), supervisor (WorkerLostError) -- at the granularity of their two      *)
-(* steps: look whether the job is resolved already, then resolve it.  ApplyResult._set has    *)
-(* no guard of its own: `FirstWriterWins` says whether it keeps the first outcome.            *)
+(* One job and the parent threads that look at it when the pool runs with helper threads:    *)
+(* three may give it its outcome -- result handler (the worker's result), time-limit scanner  *)
+(* (TimeLimitExceeded), supervisor (WorkerLostError) -- and the scanner's soft-limit branch   *)
+(* may signal its worker.  Granularity: each thread *looks* whether the job is resolved and   *)
+(* then *acts*; the act of a writer is ApplyResult._set, which takes the handle's mutex,      *)
+(* publishes the outcome (event, table) and only then enters the user's callback, where it    *)
+(* may stay for as long as the user likes (`incb`) with the mutex held.                       *)
+(* `FirstWriterWins` says whether _set keeps the first outcome.                               *)
 (* C01: an outcome never changes once it is observable; callbacks fire at most once.          *)
+(* C06: no soft-limit signal for a job whose result has been processed already -- a callback  *)
+(*      that has been entered is the observable proof that it has.                            *)
 EXTENDS Integers, Sequences, FiniteSets, TLC, Json
-CONSTANTS Writers,          \* subset of {"result", "timeout", "lost"}
+CONSTANTS Writers,          \* subset of {"result", "timeout", "lost", "soft"}
           FirstWriterWins   \* BOOLEAN: _set ignores a second outcome
-VARIABLES pc,       \* w -> "idle" | "checked" | "done"
+VARIABLES pc,       \* w -> "idle" | "checked" | "incb" | "done"
           saw,      \* w -> what its look said: job still unresolved?
+          look,     \* w -> callbacks entered at the moment of its look
           out,      \* "none" | "ok" | "timelimit" | "lost"
           incache,  \* the job is in the table
-          cb, ecb,  \* success / error callbacks fired
+          cb, ecb,  \* success / error callbacks entered
+          mutex,    \* "none" or the writer that is inside _set
+          softsig,  \* soft-limit signals sent to the job's worker
+          tcb,      \* timeout callbacks (soft) fired
           hist,     \* every outcome the job was ever given, in order
           act
-vars == <<pc, saw, out, incache, cb, ecb, hist, act>>
-View == <<pc, saw, out, incache, cb, ecb, hist>>
+vars == <<pc, saw, look, out, incache, cb, ecb, mutex, softsig, tcb, hist, act>>
+View == <<pc, saw, look, out, incache, cb, ecb, mutex, softsig, tcb, hist>>
+Setters == Writers \ {"soft"}
 What(w) == CASE w = "result" -> "ok" [] w = "timeout" -> "timelimit" [] w = "lost" -> "lost"
 Init == /\ pc = [w \in Writers |-> "idle"] /\ saw = [w \in Writers |-> FALSE]
+        /\ look = [w \in Writers |-> 0]
         /\ out = "none" /\ incache = TRUE /\ cb = 0 /\ ecb = 0 /\ hist = <<>>
+        /\ mutex = "none" /\ softsig = 0 /\ tcb = 0
         /\ act = [name |-> "Init"]
-(* the writer looks: the result handler looks the job up in the table (a job that has left it is
-   ignored) and notes whether it is resolved; the scanner and the supervisor test ready() *)
+(* the thread looks: the result handler looks the job up in the table (a job that has left it is
+   ignored) and notes whether it is resolved; the scanner and the supervisor test ready().
+   No look needs the mutex. *)
 Check(w) ==
     /\ pc[w] = "idle"
     /\ pc' = [pc EXCEPT ![w] = "checked"]
     /\ saw' = [saw EXCEPT ![w] = IF w = "result" THEN incache ELSE out = "none"]
+    /\ look' = [look EXCEPT ![w] = cb + ecb]
     /\ act' = [name |-> "Check", w |-> w]
-    /\ UNCHANGED <<out, incache, cb, ecb, hist>>
-(* ... and acts on what it saw *)
+    /\ UNCHANGED <<out, incache, cb, ecb, mutex, softsig, tcb, hist>>
+(* ... and a writer acts on what it saw: _set, up to the entry of the user's callback.  A writer
+   that finds the mutex taken waits (the action is not enabled); one whose look said "resolved"
+   returns without touching it. *)
 Set(w) ==
-    /\ pc[w] = "checked"
-    /\ pc' = [pc EXCEPT ![w] = "done"]
+    /\ w \in Setters /\ pc[w] = "checked" /\ (saw[w] => mutex = "none")
     /\ IF saw[w] /\ ~(FirstWriterWins /\ out # "none")
          THEN /\ out' = What(w) /\ hist' = Append(hist, What(w)) /\ incache' = FALSE
               /\ cb' = IF w = "result" THEN cb + 1 ELSE cb
               /\ ecb' = IF w = "result" THEN ecb ELSE ecb + 1
-         ELSE UNCHANGED <<out, hist, incache, cb, ecb>>
+              /\ mutex' = w /\ pc' = [pc EXCEPT ![w] = "incb"]
+         ELSE /\ UNCHANGED <<out, hist, incache, cb, ecb, mutex>>
+              /\ pc' = [pc EXCEPT ![w] = "done"]
     /\ act' = [name |-> "Set", w |-> w]
-    /\ UNCHANGED saw
-Next == \E w \in Writers : Check(w) \/ Set(w)
+    /\ UNCHANGED <<saw, look, softsig, tcb>>
+(* the user's callback returns; _set releases the mutex *)
+Finish(w) ==
+    /\ w \in Setters /\ pc[w] = "incb"
+    /\ pc' = [pc EXCEPT ![w] = "done"] /\ mutex' = "none"
+    /\ act' = [name |-> "Finish", w |-> w]
+    /\ UNCHANGED <<saw, look, out, incache, cb, ecb, softsig, tcb, hist>>
+(* TimeoutHandler.on_soft_timeout after its ready() look: timeout callback, then the signal *)
+SoftAct ==
+    /\ "soft" \in Writers /\ pc["soft"] = "checked"
+    /\ pc' = [pc EXCEPT !["soft"] = "done"]
+    /\ IF saw["soft"] THEN softsig' = softsig + 1 /\ tcb' = tcb + 1
+                      ELSE UNCHANGED <<softsig, tcb>>
+    /\ act' = [name |-> "SoftAct", w |-> "soft"]
+    /\ UNCHANGED <<saw, look, out, incache, cb, ecb, mutex, hist>>
+Next == SoftAct \/ \E w \in Writers : Check(w) \/ Set(w) \/ Finish(w)
 Spec == Init /\ [][Next]_vars
 OutcomeStable == Len(hist) <= 1
 CallbacksOnce == cb + ecb <= 1
-Proj == [pc |-> pc, saw |-> saw, out |-> out, incache |-> incache, cb |-> cb, ecb |-> ecb, hist |-> hist]
+(* when user code is told of the outcome, everybody else can see it too *)
+PublishedBeforeCallback == cb + ecb > 0 => out # "none" /\ ~incache
+(* no signal on behalf of a job whose result had been processed when the scanner looked *)
+SoftOnlyIfUnprocessed == softsig > 0 => look["soft"] = 0
+SoftSignalMatchesCallback == softsig = tcb /\ softsig <= 1
+MutexIsCallback == (mutex # "none") <=> (\E w \in Setters : pc[w] = "incb" /\ mutex = w)
+Proj == [pc |-> pc, saw |-> saw, look |-> look, out |-> out, incache |-> incache, cb |-> cb, ecb |-> ecb,
+         mutex |-> mutex, softsig |-> softsig, tcb |-> tcb, hist |-> hist]
 EmitEdge == PrintT(ToJson([from |-> Proj, act |-> act', to |-> Proj', lvl |-> TLCGet("level")]))
 EmitInit == TLCGet("level") > 1 \/ PrintT(ToJson([init |-> Proj]))
 =============================================================================
